@@ -25,7 +25,7 @@ STACK_VAR = 1
 
 
 class Box:
-    """the values stored: identity `bid`, one mutable field `val`; always truthy"""
+    """kind 0: identity `bid`, one mutable field `val`; truthy"""
 
     __slots__ = ("bid", "val")
 
@@ -37,8 +37,108 @@ class Box:
         return f"Box({self.bid})"
 
 
-def bx(b):
-    return f"{b.bid}:{b.val}"
+class FalsyBox(Box):
+    """kind 3: a bound object whose __bool__ is False"""
+
+    __slots__ = ()
+
+    def __bool__(self):
+        return False
+
+
+class ZeroLen(Box):
+    """kind 4: a bound object with __len__() == 0 (falsy without defining __bool__)"""
+
+    __slots__ = ()
+
+    def __len__(self):
+        return 0
+
+
+# kinds 5-7: immutable scalars without identity, named by their pool slot (mirrors Driver/C18.lean `vname`)
+SCALARS = [0, 0.0, False, 0j, "", (), b"", frozenset(), 1, True, 1.0, (1 + 0j)]
+
+
+def kind(b):
+    return b % 8
+
+
+def is_scalar(b):
+    return kind(b) >= 5
+
+
+def slot(b):
+    return (b // 8) % 4 + (kind(b) - 5) * 4
+
+
+def vname(b):
+    return f"s{slot(b)}" if is_scalar(b) else str(b)
+
+
+def make_payload(b):
+    k = kind(b)
+    if k == 0:
+        return Box(b)
+    if k == 1:
+        return {}
+    if k == 2:
+        return []
+    if k == 3:
+        return FalsyBox(b)
+    if k == 4:
+        return ZeroLen(b)
+    return SCALARS[slot(b)]
+
+
+class Registry:
+    """payload objects of one case: id -> object, and back by identity"""
+
+    def __init__(self):
+        self.objs = {}
+        self.ids = {}
+
+    def get(self, b):
+        if is_scalar(b):
+            return SCALARS[slot(b)]
+        if b not in self.objs:
+            o = make_payload(b)
+            self.objs[b] = o
+            self.ids[id(o)] = b
+        return self.objs[b]
+
+    def name(self, o):
+        """canonical `name:field` of an object read back from werkzeug"""
+        b = self.ids.get(id(o))
+        if b is not None and self.objs.get(b) is o:
+            k = kind(b)
+            f = o.get("k", 0) if k == 1 else (o[-1] if o else 0) if k == 2 else o.val
+            return f"{b}:{f}"
+        for i, sc in enumerate(SCALARS):
+            if type(o) is type(sc) and o == sc:
+                return f"s{i}:0"
+        return f"UNKNOWN-OBJECT({o!r})"
+
+
+def mutate_payload(o, f):
+    """in-place mutation through whatever reference was obtained (object, or proxy to it)"""
+    if isinstance(o, dict):
+        o["k"] = f
+    elif isinstance(o, list):
+        o.append(f)
+    elif isinstance(o, Box):
+        o.val = f
+    else:
+        return "immutable"
+    return "ok"
+
+
+def falsy_of(b, fields):
+    k = kind(b)
+    if k in (0, 7):
+        return False
+    if k in (1, 2):
+        return fields.get(b, 0) == 0
+    return True
 
 
 def fmt_items(items):
@@ -205,15 +305,12 @@ def run_real(case):
 
     objs = {0: Local(), 1: LocalStack(), 2: Local()}
     manager = LocalManager([objs[0], objs[1], objs[2]])
-    boxes = {}
+    reg = Registry()
     proxies = []
     runner = RUNNERS[case["mode"]]()
     nctx = 1
-
-    def box(b):
-        if b not in boxes:
-            boxes[b] = Box(b)
-        return boxes[b]
+    box = reg.get
+    bx = reg.name
 
     def observe():
         def obs():
@@ -328,21 +425,52 @@ def run_real(case):
                     s = "RuntimeError"
                     o = None
                 else:
-                    # read through the proxy; the object must be the very box bound here
-                    s = f"{p.bid}:{p.val}" if boxes.get(o.bid) is o else "WRONG-OBJECT"
+                    # the object must be the very payload bound here, and reads through the proxy
+                    # must see its content
+                    s = bx(o)
+                    through = p.get("k", 0) if isinstance(o, dict) else (p[-1] if len(p) else 0) if isinstance(o, list) else p.val if isinstance(o, Box) else 0
+                    if not s.endswith(f":{through}"):
+                        s = f"WRONG-READ({s} vs {through})"
                 r = repr(p)
-                rep = "unbound" if r == "<LocalProxy unbound>" else "Box" if (o is not None and r == repr(o)) else r
+                rep = "unbound" if r == "<LocalProxy unbound>" else "Box" if (s != "RuntimeError" and r == repr(o)) else r
                 return f"{s},{bool(p)},{rep}"
 
         elif kind == "pmut":
             _, _, i, fv = op
 
             def f():
+                p = proxies[i]
                 try:
-                    proxies[i].val = fv
-                    return "ok"
+                    o = p._get_current_object()
                 except RuntimeError:
                     return "RuntimeError"
+                # mutate *through the proxy*
+                if isinstance(o, dict):
+                    p["k"] = fv
+                elif isinstance(o, list):
+                    p.append(fv)
+                elif isinstance(o, Box):
+                    p.val = fv
+                else:
+                    return "immutable"
+                return "ok"
+
+        elif kind == "amut":
+            _, _, v, k, fv = op
+
+            def f():
+                try:
+                    o = getattr(objs[v], f"n{k}")
+                except AttributeError:
+                    return "AttributeError"
+                return mutate_payload(o, fv)
+
+        elif kind == "tmut":
+            _, _, v, fv = op
+
+            def f():
+                o = objs[v].top
+                return "None" if o is None else mutate_payload(o, fv)
 
         else:
             raise ValueError(f"unknown op {op!r}")
@@ -382,7 +510,13 @@ def run_reference(case):
     proxies = []
 
     def b(x):
-        return f"{x}:{fields.get(x, 0)}"
+        return f"{vname(x)}:{0 if is_scalar(x) else fields.get(x, 0)}"
+
+    def mutate(x, f):
+        if is_scalar(x):
+            return "immutable"
+        fields[x] = f
+        return "ok"
 
     def items(c, v):
         return fmt_items((k, b(x)) for k, x in ctxs[c].get(v, ()))
@@ -457,13 +591,16 @@ def run_reference(case):
             return f"p{len(proxies) - 1}"
         if kind == "pget":
             x = resolve(c, proxies[op[2]])
-            return "RuntimeError,False,unbound" if x is None else f"{b(x)},True,Box"
+            return "RuntimeError,False,unbound" if x is None else f"{b(x)},{not falsy_of(x, fields)},Box"
         if kind == "pmut":
             x = resolve(c, proxies[op[2]])
-            if x is None:
-                return "RuntimeError"
-            fields[x] = op[3]
-            return "ok"
+            return "RuntimeError" if x is None else mutate(x, op[3])
+        if kind == "amut":
+            d = dict(ctxs[c].get(op[2], ()))
+            return mutate(d[op[3]], op[4]) if op[3] in d else "AttributeError"
+        if kind == "tmut":
+            st = ctxs[c].get(op[2], ())
+            return mutate(st[-1], op[3]) if st else "None"
         raise ValueError(op)
 
     out = []
@@ -483,25 +620,42 @@ def run_reference(case):
 # case generation
 
 
-def op_alphabet(c, nb):
+def op_alphabet(c, nb, reduced=False):
     """the small alphabet used for exhaustive enumeration; nb = next unused box id (callable)"""
+    if reduced:
+        return [
+            lambda: ["set", c, 0, 1, nb()],
+            lambda: ["set", c, 0, 1, 9],
+            lambda: ["del", c, 0, 1],
+            lambda: ["amut", c, 0, 1, 7],
+            lambda: ["push", c, 1, nb()],
+            lambda: ["pop", c, 1],
+            lambda: ["rel", c, 0],
+            lambda: ["pget", c, 1],
+            lambda: ["pmut", c, 0, 5],
+        ]
     return [
         lambda: ["set", c, 0, 1, nb()],
+        lambda: ["set", c, 0, 1, 9],  # a distinct but equal {} under the inherited name (id 1 is a {})
         lambda: ["del", c, 0, 1],
         lambda: ["get", c, 0, 1],
+        lambda: ["amut", c, 0, 1, 7],  # mutate through the attribute that was read
         lambda: ["push", c, 1, nb()],
         lambda: ["pop", c, 1],
+        lambda: ["tmut", c, 1, 7],  # mutate through what top returned
         lambda: ["rel", c, 0],
         lambda: ["rel", c, 1],
         lambda: ["pget", c, 0],
         lambda: ["pget", c, 1],
+        lambda: ["pmut", c, 0, 5],
+        lambda: ["pmut", c, 1, 5],
     ]
 
 
-def exhaustive_cases(depth, mode):
+def exhaustive_cases(depth, mode, reduced=False):
     """parent binds a name and pushes, creates both proxies, spawns a child; then every sequence of
     `depth` operations from parent and child over the small alphabet"""
-    n_alpha = len(op_alphabet(0, lambda: 0)) * 2
+    n_alpha = len(op_alphabet(0, lambda: 0, reduced)) * 2
     for seq in itertools.product(range(n_alpha), repeat=depth):
         counter = [10]
 
@@ -512,7 +666,7 @@ def exhaustive_cases(depth, mode):
         ops = [["set", 0, 0, 1, 1], ["push", 0, 1, 2], ["pnew", 0, "attr", 0, 1], ["pnew", 0, "top", 1], ["spawn", 0]]
         for s in seq:
             c, i = divmod(s, n_alpha // 2)
-            ops.append(op_alphabet(c, nb)[i]())
+            ops.append(op_alphabet(c, nb, reduced)[i]())
         yield {"mode": mode, "ops": ops}
 
 
@@ -527,7 +681,13 @@ def random_case(rng, mode, maxlen=14):
         return nbox[0]
 
     def oldbox():
-        return rng.randrange(1, nbox[0] + 1) if nbox[0] and rng.random() < 0.3 else nb()
+        r = rng.random()
+        if nbox[0] and r < 0.25:
+            return rng.randrange(1, nbox[0] + 1)
+        if nbox[0] and r < 0.5:
+            # a distinct object of the same kind as an earlier one: equal (==) but not identical
+            return rng.randrange(1, nbox[0] + 1) + 8 * rng.randrange(1, 4)
+        return nb()
 
     n = rng.randrange(3, maxlen + 1)
     while len(ops) < n:
@@ -542,14 +702,18 @@ def random_case(rng, mode, maxlen=14):
             ops.append(["del", c, rng.choice(LOCAL_VARS), rng.randrange(1, 4)])
         elif r < 0.42:
             ops.append(["get", c, rng.choice(LOCAL_VARS), rng.randrange(1, 4)])
-        elif r < 0.45:
+        elif r < 0.44:
             ops.append(["iter", c, rng.choice(LOCAL_VARS)])
+        elif r < 0.5:
+            ops.append(["amut", c, rng.choice(LOCAL_VARS), rng.randrange(1, 4), rng.randrange(1, 100)])
         elif r < 0.60:
             ops.append(["push", c, STACK_VAR, oldbox()])
         elif r < 0.70:
             ops.append(["pop", c, STACK_VAR])
-        elif r < 0.73:
+        elif r < 0.72:
             ops.append(["top", c, STACK_VAR])
+        elif r < 0.75:
+            ops.append(["tmut", c, STACK_VAR, rng.randrange(1, 100)])
         elif r < 0.79:
             ops.append(["rel", c, rng.choice([0, 1, 2])])
         elif r < 0.81:
@@ -585,6 +749,16 @@ class Contexts(Stream):
             [["set", 0, 0, 1, 1], ["push", 0, 1, 2], ["spawn", 0], ["cleanup", 0], ["get", 1, 0, 1], ["top", 1, 1]],
             [["pnew", 0, "attr", 0, 1], ["pnew", 0, "top", 1], ["pget", 0, 0], ["pget", 0, 1], ["set", 0, 0, 1, 1], ["push", 0, 1, 2], ["fresh"], ["spawn", 0], ["pget", 0, 0], ["pget", 1, 0], ["pget", 2, 1], ["pget", 1, 1], ["set", 2, 0, 1, 3], ["pget", 2, 0], ["pget", 0, 0], ["pmut", 2, 0, 7], ["pmut", 1, 0, 8], ["pget", 0, 0]],
             [["fresh"], ["set", 0, 0, 1, 1], ["get", 1, 0, 1], ["push", 1, 1, 2], ["top", 0, 1]],
+            # falsy payloads bound on the stack / as attributes, read and mutated through proxies:
+            # {} (1), [] (2), a __bool__-False object (3), a __len__()==0 object (4), 0 (5), "" (6)
+            [["pnew", 0, "top", 1], ["pnew", 0, "attr", 0, 1]] + [op for b in (1, 2, 3, 4, 5, 6, 13, 14, 8, 7) for op in (["push", 0, 1, b], ["pget", 0, 0], ["top", 0, 1], ["pmut", 0, 0, 4], ["pget", 0, 0], ["set", 0, 0, 1, b], ["pget", 0, 1], ["pmut", 0, 1, 6], ["pget", 0, 1])],
+            [["push", 0, 1, 1], ["pnew", 0, "top", 1], ["spawn", 0], ["pmut", 1, 0, 3], ["pget", 0, 0], ["push", 1, 1, 9], ["pget", 1, 0], ["pmut", 1, 0, 4], ["pget", 0, 0], ["pget", 1, 0]],
+            # a child rebinds an inherited name to a distinct but equal object and mutates through it
+            [["set", 0, 0, 1, 1], ["spawn", 0], ["set", 1, 0, 1, 9], ["amut", 1, 0, 1, 5], ["get", 0, 0, 1], ["get", 1, 0, 1], ["iter", 0, 0]],
+            [["set", 0, 0, 1, 2], ["pnew", 0, "attr", 0, 1], ["spawn", 0], ["fresh"], ["set", 1, 0, 1, 10], ["pmut", 1, 0, 5], ["pget", 0, 0], ["pget", 1, 0], ["set", 2, 0, 1, 18], ["pget", 2, 0]],
+            [["set", 0, 0, 1, 7], ["spawn", 0], ["set", 1, 0, 1, 15], ["get", 1, 0, 1], ["get", 0, 0, 1]],  # 1 then True
+            [["set", 0, 0, 1, 5], ["spawn", 0], ["set", 1, 0, 1, 21], ["get", 1, 0, 1], ["set", 1, 0, 1, 13], ["get", 1, 0, 1], ["get", 0, 0, 1]],  # 0, False, 0.0
+            [["set", 0, 0, 1, 1], ["set", 0, 0, 1, 9], ["amut", 0, 0, 1, 3], ["get", 0, 0, 1]],
             [["set", 0, 0, 1, 1], ["set", 0, 2, 1, 2], ["del", 0, 0, 1], ["get", 0, 2, 1], ["set", 0, 0, 2, 3], ["set", 0, 0, 1, 4], ["set", 0, 0, 2, 5], ["iter", 0, 0]],
         ]
     ]
@@ -611,7 +785,7 @@ class Contexts(Stream):
                 yield random_case(rng, "thread", 16)
             for _ in range(3000):
                 yield random_case(rng, "async", 16)
-            yield from exhaustive_cases(4, "ctx")
+            yield from exhaustive_cases(4, "ctx", reduced=True)
 
     def real(self, case):
         return run_real(case)
@@ -677,11 +851,12 @@ CHECK = Check(
         "partial: one method call is atomic in the model (GIL-level atomicity within a context; a context is only ever entered by one thread at a time); real preemption is not exhibited - threads are stepped by barriers",
         "the bodies of Local.__setattr__/__delattr__/__getattr__/__iter__/__release_local__ and LocalStack.push/pop/top/__release_local__ are translated from the AST into effect lists on every run; the translator rejects any statement outside the subset these methods use (a rejected extraction is a broken obligation)",
         "values are opaque tokens in the model; dict.copy / list.copy / list[:-1] / {} / [] allocate fresh objects and dict insertion order is modelled by hand (validated by the stream)",
+        "payloads are of eight kinds (Box, {}, [], an object with __bool__ False, an object with __len__()==0, falsy scalars, empty immutables, equal-but-distinct truthy scalars) so that bound-but-falsy objects and equal-but-distinct rebinding are exercised; the model's values stay opaque tokens, truthiness is a parameter `falsy` of proxyViewSrc",
         "LocalProxy: the three faces with declared fallbacks (_get_current_object, bool, repr) and attribute get/set forwarding are modelled; the ~50 other forwarded dunder methods share the same _ProxyLookup.__get__ path and are not enumerated; proxies to bare ContextVars and callables are not modelled",
     ],
     trusted_extra=["CPython contextvars / threading / asyncio (exercised by the stream, not verified)", "tools/gen/c18.py AST translator (statement subset of local.py -> effect lists)"],
-    quick_budget=6000,
-    thorough_budget=140000,
+    quick_budget=6500,
+    thorough_budget=160000,
 )
 
 MANIFEST = {
